@@ -26,6 +26,8 @@ RULE = ('pipelines of 1-4 operators from the property\'s list (select, '
         'has an operator that would behave differently if it materialised; '
         'distinct = distinct (pipeline, k)')
 ASSUMPTIONS = [
+    'one pipeline evaluation that takes longer than 60 s (slowest on the '
+    'tree: a few ms) is reported as non-termination (only use of the clock)',
     'need = pulls / lambda applications of the straightforward generator '
     'implementation of the same pipeline (models are itertools and '
     'hand-written generators); yaql may exceed it by one',
@@ -105,6 +107,32 @@ def op_select_many(g, p, c):
                     yield y
             else:
                 yield r
+    return gen()
+
+
+def op_select_many_lazy(g, p, c):
+    """the selector returns a lazy collection with a lambda of its own"""
+    outer = c.fn(p['lid'], lambda x: x)
+    inner = c.fn(p['lid'] + 50, lambda y: y + 100)
+
+    def gen():
+        for x in g:
+            outer(x)
+            for y in range(5):
+                yield inner(y) + x
+    return gen()
+
+
+def op_select_many_endless(g, p, c):
+    def gen():
+        n = 0
+        for x in g:
+            for y in itertools.count(x):
+                n += 1
+                if n > 5000:
+                    # a later stage that never lets anything through
+                    raise HarnessAbort('model budget')
+                yield y
     return gen()
 
 
@@ -217,6 +245,9 @@ OPS = {
     'select': ('{c}.select({L})', op_select, 'S'),
     'where': ('{c}.where({L})', op_where, 'P'),
     'selectMany': ('{c}.selectMany({L})', op_select_many, 'M'),
+    'selectMany-lazy': ('{c}.selectMany({L})', op_select_many_lazy, 'ML'),
+    'selectMany-endless': ('{c}.selectMany(sequence($))',
+                           op_select_many_endless, None),
     'skip': ('{c}.skip({n})', lambda g, p, c: itertools.islice(
         g, p['n'], None), None),
     'take': ('{c}.take({n})', lambda g, p, c: itertools.islice(g, p['n']),
@@ -272,6 +303,9 @@ def _lambda_src(step):
     kind = (OPS.get(step['op']) or END[step['op']])[2]
     if kind == 'J':
         return tick(step['lid'], '($1 + $2) mod 2 = 0')
+    if kind == 'ML':
+        return 'let(x => %s) -> range(5).select(%s + $x)' % (
+            tick(step['lid'], '$'), tick(step['lid'] + 50, '$ + 100'))
     if kind is None:
         return None
     return tick(step['lid'], fam[kind][step[kind]][0])
@@ -332,6 +366,9 @@ def check_pipeline(run, case):
         src = Source(budget=mc.pulls + 60)
     if via == 'var':
         ctx['$src'] = src
+    # (an operator that materialises an endless inner collection never
+    # returns: the watchdog reports the case as non-termination)
+    run.guard(case)
     try:
         if via == 'var':
             res = _engine()(text).evaluate(context=ctx)
@@ -378,10 +415,16 @@ def check_pipeline(run, case):
                     '%s: %d results need %d source elements, yaql consumed '
                     '%d' % (text, k, mc.pulls, src.pulls), input_class=ic)
         return
+    lids = []
     for s in steps:
         if 'lid' in s and _lambda_src(s) is not None:
-            need = mc.apps.get(s['lid'], 0)
-            used = log.count(s['lid'])
+            lids.append((s, s['lid']))
+            if s['op'] == 'selectMany-lazy':
+                lids.append((s, s['lid'] + 50))
+    for s, lid in lids:
+        if True:
+            need = mc.apps.get(lid, 0)
+            used = log.count(lid)
             if used > need + 1:
                 run.violate('lambda-overapplied', case,
                             '%s: lambda of %s needs %d applications for %d '
@@ -457,7 +500,7 @@ def run(run):
     full = run.tier == 'thorough'
     _engine()
     common.std_context()
-    _singles(run)
+    run.shards(_singles, [()], watchdog=60)
     k = 16
     run.shards(_shard, [((60000 if full else 3200) // k, i)
-                        for i in range(k)], watchdog=300)
+                        for i in range(k)], watchdog=60)
